@@ -1,8 +1,11 @@
 """Adapter for C03. JSON stdin -> stdout.
 payload = {"reports": [[message, [errors]]], "errors": [nested error], "cli": [argv lists]}
 nested error = [message, [underlying nested errors]] (node = None)."""
+import concurrent.futures
 import io
 import json
+import os
+import pathlib
 import subprocess
 import sys
 
@@ -30,8 +33,32 @@ for e in payload.get("errors", []):
         out["errors"].append({"ok": lc.error_message(build(e))})
     except BaseException as ex:  # noqa
         out["errors"].append({"exc": type(ex).__name__})
-for argv in payload.get("cli", []):
+def run_cli(job):
+    """One CLI process with its own fresh TMPDIR."""
+    i, argv = job
+    env = dict(os.environ)
+    tmp = pathlib.Path(os.environ.get("TMPDIR", "/tmp")) / f"cli-tmp-{i}"
+    tmp.mkdir(parents=True, exist_ok=True)
+    env["TMPDIR"] = str(tmp)
     p = subprocess.run([sys.executable, *argv], stdout=subprocess.PIPE, stderr=subprocess.PIPE,
-                       text=True, timeout=900)
-    out["cli"].append({"rc": p.returncode, "stdout": p.stdout, "stderr": p.stderr})
+                       text=True, timeout=900, env=env)
+    return {"rc": p.returncode, "stdout": p.stdout, "stderr": p.stderr}
+
+
+jobs = list(enumerate(payload.get("cli", [])))
+if jobs:
+    with concurrent.futures.ThreadPoolExecutor(max_workers=int(payload.get("workers", 8))) as ex:
+        out["cli"] = list(ex.map(run_cli, jobs))
+
+# the front end as main.execute runs it: run.load_model -> the text written to stderr
+out["frontend"] = []
+work = pathlib.Path(os.environ.get("TMPDIR", "/tmp"))
+for i, text in enumerate(payload.get("frontend", [])):
+    path = work / f"model_{i}.py"
+    path.write_text(text, encoding="utf-8")
+    try:
+        _, err = run.load_model(path)
+        out["frontend"].append({"stderr": err})
+    except BaseException as e:  # noqa
+        out["frontend"].append({"exc": type(e).__name__})
 json.dump(out, sys.stdout)
